@@ -150,36 +150,22 @@ theorem afterEval_sum (u : User α ε) (c : Cfg α) (s s' : St α) (f0Old : α) 
     · simp at h
     · rename_i r hr
       simp only [pure, Except.pure] at h
-      generalize hst : stopTests c _ r.f0Old = st at h
-      obtain ⟨s1, stop1⟩ := st
-      have hsp := stopTests_spec hst
+      injection h with h
+      have hsp := stopTests_spec h
       obtain ⟨hsf, hnit, hgt, hft, hf, hcb, hcont, hhalt⟩ := hsp
-      have hlog : LogExt LoopCall s.sf.log s1.sf.log := by
+      have hlog : LogExt LoopCall s.sf.log s'.sf.log := by
         rw [hsf]
         exact LogExt.single _ _ (by simp [LoopCall])
-      have hcoh1 : Coh u.toSFUser s1.sf := by
+      have hcoh1 : Coh u.toSFUser s'.sf := by
         rw [hsf]; simpa [St.logCall, Coh] using hc
-      cases stop1 with
-      | true =>
-        simp only [if_true] at h
-        injection h with h; injection h with h1 h2
-        subst h1; subst h2
-        obtain ⟨hs, ht⟩ := hhalt rfl
-        refine ⟨hcoh1, ⟨hgt, hft, by rw [hsf]; rfl, by rw [hsf]; rfl⟩, hnit, by rw [hsf]; rfl, hcb,
-          hlog, by simp, fun _ => ⟨hs, ?_⟩⟩
-        rcases ht with ⟨ht, hr'⟩ | ht
-        · left; refine ⟨ht, ?_⟩
-          rw [hf, hsf, hft]; exact hr'
-        · right; exact ht
-      | false =>
-        simp only [Bool.false_eq_true, if_false] at h
-        injection h with h; injection h with h1 h2
-        subst h1; subst h2
-        have := hcont rfl
-        subst this
-        refine ⟨by simpa [St.logCall, Coh] using hc, ⟨rfl, rfl, rfl, rfl⟩, rfl, rfl, rfl, ?_,
-          fun _ => ⟨rfl, rfl⟩, by simp⟩
-        exact LogExt.single _ _ (by simp [LoopCall])
+      refine ⟨hcoh1, ⟨hgt, hft, by rw [hsf]; rfl, by rw [hsf]; rfl⟩, hnit, by rw [hsf]; rfl, hcb,
+        hlog, fun hst => by rw [hcont hst]; exact ⟨rfl, rfl⟩, fun hst => ?_⟩
+      obtain ⟨hs, ht⟩ := hhalt hst
+      refine ⟨hs, ?_⟩
+      rcases ht with ⟨ht, hr'⟩ | ht
+      · left; refine ⟨ht, ?_⟩
+        rw [hf, hsf, hft]; exact hr'
+      · right; exact ht
   · simp only [pure, Except.pure] at h
     injection h with h
     have hsp := stopTests_spec h
@@ -284,54 +270,53 @@ theorem iterStep_pass (u : User α ε) (c : Cfg α) (s s' : St α) (d : Vec α) 
         simp only [Bool.false_eq_true, if_false] at h
         obtain ⟨htask, hsucc⟩ := ae.cont rfl
         simp only at htask hsucc
-        -- the memory update does not touch anything the invariant talks about
-        generalize hum : updateMats s1.x s1.g s1.X s1.G c.maxcor s1.mats c.epsSY = um at h
-        obtain ⟨X, G, mats, acc⟩ := um
-        simp only at h
+        -- the memory update (`memStep`) does not touch anything the invariant talks about
         split at h
         · simp at h
         · rename_i s2 hs2
           simp only [pure, Except.pure] at h
           injection h with h; injection h with h1 h2
           subst h1; subst h2
-          have cb := doCallback_sum u c _ s2 (by simpa using ae.coh) hs2
-          have hnf2 : s2.sf.nfev = e.1.nfev := by rw [cb.nfev]; simpa using hnf1
+          have cb0 := doCallback_sum u c (memStep c s1) s2 ae.coh hs2
+          -- `memStep` changes `X`, `G`, `mats` only: restate the summary for `s1`
+          have cb : AfterCb u s1 s2 :=
+            ⟨cb0.coh, ⟨cb0.env.gtol, cb0.env.ftarget, cb0.env.scale, cb0.env.mode⟩, cb0.nit, cb0.nfev,
+             cb0.f_eq, cb0.log, cb0.alt⟩
+          have hnf2 : s2.sf.nfev = e.1.nfev := by rw [cb.nfev]; exact hnf1
           have henv2 : SameEnv s s2 :=
             SameEnv.trans henv1 ⟨cb.env.gtol, cb.env.ftarget, cb.env.scale, cb.env.mode⟩
-          refine ⟨⟨⟨by simpa using cb.coh, ?_, ?_, ?_, ?_, ?_⟩, ⟨henv2.gtol, henv2.ftarget, henv2.scale, henv2.mode⟩,
-            fun _ => by simp [cb.nit, ae.nit], by simp,
+          have hn1 : s1.nit = s.nit := ae.nit
+          refine ⟨⟨⟨cb.coh, ?_, ?_, ?_, ?_, ?_⟩, ⟨henv2.gtol, henv2.ftarget, henv2.scale, henv2.mode⟩,
+            fun _ => by simp only; rw [cb.nit, hn1], by simp,
             by simp only; rw [hnf2]; exact es.nfev_ge,
             fun hm => by simp only; rw [hnf2]; have := es.nfev_le hm; omega,
-            LogExt.trans hlog1 (by simpa using cb.log)⟩,
+            LogExt.trans hlog1 cb.log⟩,
             fun hm => by simp only; rw [hnf2]; exact es.nfev_le hm⟩
           all_goals simp only
           · intro hsu
             rcases cb.alt with ⟨-, h2, -⟩ | ⟨h1, -, -⟩
-            · simp only at h2; rw [h2, hsucc, hs] at hsu; cases hsu
+            · rw [h2, hsucc, hs] at hsu; cases hsu
             · exact Or.inr (Or.inr h1)
           · intro htt
             rcases cb.alt with ⟨h1, -, -⟩ | ⟨-, h2, -⟩
-            · simp only at h1
-              have : s.task = .target ∨ s.task = .ftol ∨ s.task = .userCallback := by
+            · have : s.task = .target ∨ s.task = .ftol ∨ s.task = .userCallback := by
                 rw [← htask, ← h1]; exact htt
               have := hi.task_succ this
               rw [hs] at this; cases this
             · exact h2
           · intro htt
             rcases cb.alt with ⟨h1, -, -⟩ | ⟨h1, -, -⟩
-            · simp only at h1
-              have := hi.task_succ (Or.inl (by rw [← htask, ← h1]; exact htt))
+            · have := hi.task_succ (Or.inl (by rw [← htask, ← h1]; exact htt))
               rw [hs] at this; cases this
             · rw [h1] at htt; cases htt
           · intro htt
             rcases cb.alt with ⟨h1, -, -⟩ | ⟨-, -, h3⟩
-            · simp only at h1
-              have := hi.task_succ (Or.inr (Or.inr (by rw [← htask, ← h1]; exact htt)))
+            · have := hi.task_succ (Or.inr (Or.inr (by rw [← htask, ← h1]; exact htt)))
               rw [hs] at this; cases this
             · exact h3
           · intro htt
             rcases cb.alt with ⟨-, h2, -⟩ | ⟨h1, -, -⟩
-            · simp only at h2; rw [h2, hsucc]; exact hs
+            · rw [h2, hsucc]; exact hs
             · rw [h1] at htt; cases htt
 
 theorem iterBody_pass (u : User α ε) (o : Oracles α δ) (c : Cfg α) (s s' : St α) (flow : Flow)
